@@ -68,10 +68,13 @@ var vHashNames = []string{"hs0", "hs1", "hs2", "hs3", "hs4", "hs5", "hs6", "hs7"
 // (key derivation itself is decided by H_C08_keys with SHA-1 as an uninterpreted function).
 func vHash(v ...[]byte) []byte {
 	h := vBytes(vHashNames[vHashCalls], 20)
-	vHashCalls++
 	vAssume(len(h) == 20)
+	vHashOut[vHashCalls] = h[:20]
+	vHashCalls++
 	return h[:20]
 }
+
+var vHashOut [10][]byte
 
 // H_C08_server_policy: the MSE server against an ARBITRARY peer byte stream (the solver supplies
 // a stream that gets through the Diffie-Hellman exchange, synchronisation, key check and VC), all
@@ -164,4 +167,45 @@ func H_C08_keys() {
 		vAssert(c.out[f+j] == req1[j], "HASH('req1', S) over the 96-byte form of S")
 		vAssert(c.out[f+20+j] == req23[j], "HASH('req2', SKEY) xor HASH('req3', S)")
 	}
+}
+
+// H_C07_client_glued: the MSE client against an ARBITRARY server stream (<= 156 bytes) delivered
+// as coalesced as possible: whatever follows the server's crypto reply in the same reads is
+// handed to the message layer in order and as the negotiated method says: the bytes returned
+// are the LAST len(buf) bytes read from the stream - untouched in plaintext mode, xor the LAST
+// len(buf) keystream bytes the receiving cipher has produced in RC4 mode (ghost: the cipher's
+// position). That nothing is lost between the reply and these bytes is H_C07_server_over_mse's
+// and the framing harnesses' subject, not this one's.
+func H_C07_client_glued() {
+	vHashCalls = 0
+	o := vOptions()
+	in := vBytes("in", 96+60)
+	c := &vScriptConn{in: in, seg: 2}
+	sk := vBytes("sk", 20)
+	vAssume(len(sk) == 20)
+	conn, buf, err := ClientHandshake(c, sk[:20], []byte{1, 2, 3}, o)
+	if err != nil {
+		vReach("refused")
+		return
+	}
+	vReach("established")
+	ec, encrypted := conn.(*Conn)
+	o0 := c.pos - len(buf)
+	vAssert(o0 >= 96+14, "the glued bytes start after the public key and the crypto reply")
+	j := vInt("j")
+	if j < 0 || j >= len(buf) {
+		return
+	}
+	if !encrypted {
+		vReach("glued-plaintext")
+		vAssert(buf[j] == in[o0+j], "plaintext mode: glued bytes are handed on as received")
+		return
+	}
+	vReach("glued-rc4")
+	ref, _ := rc4.NewCipher(vHashOut[1]) // the receiving key: the second digest the handshake derives (keyB)
+	ks := make([]byte, 1024+14+60+60)
+	ref.XORKeyStream(ks, ks)
+	x0 := vCipherPos(ec.dec) - len(buf)
+	vAssert(x0 >= 1024+14, "the receiving cipher has skipped 1024 bytes and decrypted the crypto reply")
+	vAssert(buf[j] == in[o0+j]^ks[x0+j], "RC4 mode: glued bytes are decrypted, each at its keystream position")
 }
